@@ -6,17 +6,17 @@ namespace Pfdl.Props.C06
 open Pfdl
 
 /-- each time a parallel loop is reached its limit is evaluated once, at that moment (one variable
-    query with the enclosing task instance as context, or none for a literal); `N ≤ 0` starts
+    query with the enclosing task instance as context, or none for a literal); a limit below 1
+    (`int(limit)` is 0 or negative; a fraction below 1 as well - repaired by `fix:` c664640) starts
     nothing and the loop is complete at once (next statement in the same call, by C02);
-    an integral `N > 0` forks exactly `N` copies of its task call, the k-th with the counting
+    otherwise it forks exactly `⌊N⌋` copies of its task call, the k-th with the counting
     variable bound to `k` -/
 theorem ploop_step (P : Prog) (ee : EE) (f : Nat) (v : String) (lim : Limit) (c : CallSite) (line : Nat) (env : Env) (s : St) (n : Rat)
     (h : (s.readLimit ee lim env.ctx).1 = some n) :
     enter P ee (f+1) (.ploop v lim c line) env s =
-      if n ≤ 0 then (.fin, (s.readLimit ee lim env.ctx).2)
-      else if n.den != 1 then (.stuck .raised, (s.readLimit ee lim env.ctx).2.setStuck .raised)
+      if n < 1 then (.fin, (s.readLimit ee lim env.ctx).2)
       else
-        (let x := enterCalls P ee f (List.replicate n.num.toNat c) env false (fun k => (v, k) :: env.binds) 0
+        (let x := enterCalls P ee f (List.replicate n.floor.toNat c) env false (fun k => (v, k) :: env.binds) 0
                     (s.readLimit ee lim env.ctx).2.pend.length true (s.readLimit ee lim env.ctx).2
          if x.1.all Run.isFin then (.fin, x.2) else (.par x.1, x.2)) := by
   simp only [enter]
@@ -42,16 +42,15 @@ theorem starts_N_instances (P : Prog) (ee : EE) (f : Nat) (v : String) (lim : Li
     (tsSites (s.readLimit ee lim env.ctx).2.out ++ List.replicate N (c.name, c.line)).Sublist
       (tsSites (enter P ee (f+1) (.ploop v lim c line) env s).2.out) := by
   rw [ploop_step P ee f v lim c line env s (N : Rat) h] at hst ⊢
-  have hpos : ¬ ((N : Rat) ≤ 0) := by
-    intro hle
-    have : (0 : Rat) < (N : Rat) := Rat.natCast_pos.2 hN
-    exact absurd hle (Rat.not_le.2 this)
+  have hpos : ¬ ((N : Rat) < 1) := by
+    intro hlt
+    have h1 : ((1 : Nat) : Rat) ≤ (N : Rat) := Rat.natCast_le_natCast.2 hN
+    exact absurd hlt (Rat.not_lt.2 (by simpa using h1))
   rw [if_neg hpos] at hst ⊢
-  have hden : ((N : Rat).den != 1) = false := by simp
-  rw [hden] at hst ⊢
-  simp only [Bool.false_eq_true, if_false] at hst ⊢
-  have hnum : (N : Rat).num.toNat = N := by simp
+  have hnum : (N : Rat).floor.toNat = N := by
+    rw [(Rat.intCast_natCast N).symm, Rat.floor_intCast]; simp
   rw [hnum] at hst ⊢
+  dsimp only at hst ⊢
   have hfork := enterCalls_fork P ee f (List.replicate N c) env false (fun k => (v, k) :: env.binds) 0
     (s.readLimit ee lim env.ctx).2.pend.length true (s.readLimit ee lim env.ctx).2
   simp only [List.map_replicate] at hfork
@@ -59,9 +58,9 @@ theorem starts_N_instances (P : Prog) (ee : EE) (f : Nat) (v : String) (lim : Li
   · rename_i hall; rw [if_pos hall] at hst; exact hfork hst
   · rename_i hall; rw [if_neg hall] at hst; exact hfork hst
 
-/-- NONE IF N ≤ 0 -/
+/-- NONE IF N IS BELOW 1 (0, negative, or a fraction below 1) -/
 theorem starts_none (P : Prog) (ee : EE) (f : Nat) (v : String) (lim : Limit) (c : CallSite) (line : Nat) (env : Env) (s : St) (n : Rat)
-    (h : (s.readLimit ee lim env.ctx).1 = some n) (hn : n ≤ 0) :
+    (h : (s.readLimit ee lim env.ctx).1 = some n) (hn : n < 1) :
     enter P ee (f+1) (.ploop v lim c line) env s = (.fin, (s.readLimit ee lim env.ctx).2) := by
   rw [ploop_step P ee f v lim c line env s n h, if_pos hn]
 
